@@ -2,9 +2,11 @@ import RreModel.Proto
 import RreModel.C01.Spec
 /-
 Driver for C01 (case / observation grammar: see harness/src/bin/c01.rs).
-  drv_c01 model   : case        ↦ observation predicted by the model (`C01.pass` on the compiled rules)
+  drv_c01 model   : case        ↦ observation predicted by the model (`C01.cycles` on the compiled rules, one
+                                   run per execute call, each from the facts the caller hands in)
   drv_c01 oracle  : case | obs  ↦ `ok <tags>` / `fail <clause>` — `Spec.holds` on every reported pre-state
-                                   vs. the reported firing, read-back of assignments, twin entry points
+                                   vs. the reported firing (every cycle of every call), read-back of assignments,
+                                   twin entry points
 Floats: `F := Float`, exchanged as bit patterns; `fmod` is bound to libm.
 -/
 open Proto C01
@@ -181,10 +183,22 @@ def pAction : PM (SAction Float) := do
   let r ← pSRhs
   return if k = "=" then .set f r else .append f r
 
+/-- one more `execute` call on the same engine after the caller replaced top-level facts
+(`fresh`: in a new `Facts` object with the same content — the same thing to model and oracle) -/
+structure Phase where
+  fresh : Bool
+  sets : List (Str × Val Float)
+
 structure Case where
   grl : Bool
   facts : Facts Float
   rules : List (SRule Float)
+  maxCycles : Nat := 1
+  phases : List Phase := []
+
+/-- `Facts::add_value` for every listed fact -/
+def applySets (f : Facts Float) (sets : List (Str × Val Float)) : Facts Float :=
+  sets.foldl (fun acc (k, v) => insertKV acc k v) f
 
 def pCase : PM Case := do
   let g ← tok
@@ -196,7 +210,22 @@ def pCase : PM Case := do
     let c ← pCond
     let acts ← rep k pAction
     pure ({ name := i, cond := c, actions := acts } : SRule Float))
-  return { grl := g = "G1", facts := facts, rules := rules }
+  let peek : PM (Option Char) := do
+    match ← get with
+    | t :: _ => pure (some t.front)
+    | [] => pure none
+  let maxCycles ← (do if (← peek) == some 'M' then pCount 'M' else pure 1)
+  let phases ← (do
+    if (← peek) == some 'P' then
+      let k ← pCount 'P'
+      rep k (do
+        let t ← tok
+        let n ← natOf (t.drop 1).toString
+        if t.front != 'p' && t.front != 'w' then failure
+        let sets ← rep n (do let k ← strOfHex (← tok); let v ← pValue; pure (k, v))
+        pure ({ fresh := t.front == 'w', sets := sets } : Phase))
+    else pure [])
+  return { grl := g = "G1", facts := facts, rules := rules, maxCycles := maxCycles, phases := phases }
 
 def runP {α} (p : PM α) (ts : List String) : Option α :=
   match p.run ts with
@@ -257,13 +286,23 @@ def showRun (r : PassResult Float) (withFirings : Bool) : String :=
   let body := fs.map (fun x => s!" {x.rule} {showFacts x.post}")
   s!"{head} {fs.length}{String.join body} {showFacts r.final}"
 
+/-- the calls of a case: the first on the initial facts, each later one on the facts the previous call
+left, with the caller's replacements applied; the engine carries nothing else from call to call -/
+def modelRuns (c : Case) : List (PassResult Float) :=
+  let rules := c.rules.map compileRule
+  let first := cycles fops c.maxCycles c.facts rules
+  let (_, rs) := c.phases.foldl (fun (acc : PassResult Float × List (PassResult Float)) ph =>
+      let r := cycles fops c.maxCycles (applySets acc.1.final ph.sets) rules
+      (r, acc.2 ++ [r])) (first, [first])
+  rs
+
 def modelLine (line : String) : String :=
   match parseCase line with
   | none => "bad-case"
   | some c =>
-    let r := pass fops c.facts (c.rules.map compileRule)
-    let base := s!"C {showRun r true} X {showRun r false}"
-    if c.grl then s!"{base} G {showRun r true}" else base
+    let rs := modelRuns c
+    let stream (tag : String) (withFirings : Bool) : List String := rs.map (fun r => s!"{tag} {showRun r withFirings}")
+    joinSp (stream "C" true ++ stream "X" false ++ (if c.grl then stream "G" true else []))
 
 /-! ### oracle mode -/
 
@@ -288,21 +327,25 @@ def pRun : PM Run := do
   | some f => return { status := st, evaluated := ev, fired := fi, firings := fs, final := f }
   | none => failure
 
+/-- the runs of each stream, one per execute call -/
 structure Obs where
-  c : Run
-  x : Run
-  g : Option Run
+  c : List Run
+  x : List Run
+  g : List Run
+
+partial def pTagged : PM (List (String × Run)) := do
+  match ← get with
+  | [] => return []
+  | _ => do
+    let t ← tok
+    let r ← pRun
+    return (t, r) :: (← pTagged)
 
 def pObs : PM Obs := do
-  let _ ← tok
-  let c ← pRun
-  let _ ← tok
-  let x ← pRun
-  match ← get with
-  | [] => return { c := c, x := x, g := none }
-  | _ => do
-    let _ ← tok
-    return { c := c, x := x, g := some (← pRun) }
+  let all ← pTagged
+  let sel (tag : String) : List Run := (all.filter (·.1 == tag)).map (·.2)
+  if all.any (fun (t, _) => t != "C" && t != "X" && t != "G") then failure
+  return { c := sel "C", x := sel "X", g := sel "G" }
 
 def leaves : SCond Float → List (SLeaf Float)
   | .leaf l => [l]
@@ -345,65 +388,106 @@ structure Acc where
 def leafTags (f : Facts Float) (c : SCond Float) : List String :=
   (leaves c).map (fun l => if Spec.leaf fops f l then "leafT" else "leafF")
 
-/-- walk the rules against one observed run -/
-def judgeRun (name : String) (c : Case) (r : Run) : Acc := Id.run do
+/-- walk the rules against one observed run (one `execute` call that started on `start`): cycle after
+cycle, every consideration of a rule is judged on the facts reported for that moment; a cycle without
+a firing ends the call -/
+def judgeRun (name : String) (c : Case) (start : Facts Float) (r : Run) : Acc := Id.run do
   let mut acc : Acc := {}
-  let mut cur := c.facts
+  let mut cur := start
   let mut firings := r.firings
   let okRun := r.status == "ok"
-  for rule in c.rules do
-    if acc.fail.isSome then break
-    -- after an error/panic the rules beyond the last reported firing are not judged
-    if !okRun && firings.isEmpty then break
-    let firedNow := match firings with | (i, _) :: _ => i == rule.name | [] => false
-    if Spec.wf fops cur rule.cond then
-      let expect := Spec.holds fops cur rule.cond
-      acc := { acc with tags := acc.tags ++ ["judged", if expect then "holds" else "holdsnot", s!"depth{depth rule.cond}"]
-                                  ++ leafTags cur rule.cond }
-      if expect != firedNow then
-        acc := { acc with fail := some s!"{name}:fires_iff@{rule.name}:expected_{expect}" }
-    else
-      acc := { acc with tags := acc.tags ++ ["outside_domain"] }
-    if firedNow then
-      match firings with
-      | (_, post) :: rest =>
-        let (ok, n) := checkActions cur post rule.actions
-        if !ok && acc.fail.isNone then acc := { acc with fail := some s!"{name}:reads_back@{rule.name}" }
-        if n > 0 then acc := { acc with tags := acc.tags ++ ["readback"] }
-        cur := post
-        firings := rest
-      | [] => pure ()
+  let mut considered := 0
+  let mut stop := false
+  for cycle in [0:c.maxCycles] do
+    if stop || acc.fail.isSome then break
+    let mut firedInCycle := false
+    for rule in c.rules do
+      if acc.fail.isSome then break
+      -- after an error/panic the rules beyond the last reported firing are not judged
+      if !okRun && firings.isEmpty then
+        stop := true
+        break
+      considered := considered + 1
+      let firedNow := match firings with | (i, _) :: _ => i == rule.name | [] => false
+      if Spec.wf fops cur rule.cond then
+        let expect := Spec.holds fops cur rule.cond
+        acc := { acc with tags := acc.tags ++ ["judged", if expect then "holds" else "holdsnot", s!"depth{depth rule.cond}"]
+                                    ++ leafTags cur rule.cond ++ (if cycle > 0 then ["judged_later_cycle"] else []) }
+        if expect != firedNow then
+          acc := { acc with fail := some s!"{name}:fires_iff@{rule.name}:expected_{expect}" }
+      else
+        acc := { acc with tags := acc.tags ++ ["outside_domain"] }
+      if firedNow then
+        match firings with
+        | (_, post) :: rest =>
+          let (ok, n) := checkActions cur post rule.actions
+          if !ok && acc.fail.isNone then acc := { acc with fail := some s!"{name}:reads_back@{rule.name}" }
+          if n > 0 then acc := { acc with tags := acc.tags ++ ["readback"] }
+          cur := post
+          firings := rest
+          firedInCycle := true
+        | [] => pure ()
+    if !firedInCycle then stop := true
   if acc.fail.isNone && okRun then
     if !firings.isEmpty then acc := { acc with fail := some s!"{name}:unexpected_firing" }
-    else if r.evaluated != c.rules.length then acc := { acc with fail := some s!"{name}:rules_evaluated" }
+    else if r.evaluated != considered then acc := { acc with fail := some s!"{name}:rules_evaluated" }
     else if r.fired != r.firings.length then acc := { acc with fail := some s!"{name}:rules_fired" }
     else if !(same (.obj cur) (.obj r.final)) then acc := { acc with fail := some s!"{name}:final_facts" }
   return acc
+
+/-- all calls of one stream: call `i` starts on the facts the implementation reported at the end of
+call `i-1`, with the caller's replacements applied (the oracle never runs the model) -/
+def judgeStream (name : String) (c : Case) (runs : List Run) : Acc := Id.run do
+  let mut acc : Acc := {}
+  let mut start := c.facts
+  let mut phases := c.phases
+  let mut i := 0
+  for r in runs do
+    if acc.fail.isSome then break
+    let nm := if i == 0 then name else s!"{name}:call{i}"
+    let a := judgeRun nm c start r
+    acc := { fail := a.fail, tags := acc.tags ++ a.tags ++ (if i > 0 && a.tags.contains "judged" then ["judged_later_call"] else []) }
+    match phases with
+    | ph :: rest =>
+      start := applySets r.final ph.sets
+      phases := rest
+    | [] => pure ()
+    i := i + 1
+  return acc
+
+def twinDiffers (x c : Run) : Bool :=
+  x.status != c.status || x.evaluated != c.evaluated || x.fired != c.fired || !(same (.obj x.final) (.obj c.final))
 
 def oracleLine (line : String) : String :=
   match line.splitOn " | " with
   | [cs, os] =>
     match parseCase cs, runP pObs (tokens os) with
     | some c, some o =>
-      let a := judgeRun "callback" c o.c
+      let ncalls := c.phases.length + 1
+      let panicked := o.c.any (·.status == "panic") || o.x.any (·.status == "panic") || o.g.any (·.status == "panic")
+      -- one RUN per execute call in every stream (a panic ends a stream early)
+      if o.c.isEmpty || (!panicked && (o.c.length != ncalls || o.x.length != ncalls || (c.grl && o.g.length != ncalls))) then "bad-input"
+      else
+      let a := judgeStream "callback" c o.c
       match a.fail with
       | some f => s!"fail {f}"
       | none =>
-        -- twin entry point: execute / execute_at_time must end in the same state with the same counters
-        if o.x.status != o.c.status || o.x.evaluated != o.c.evaluated || o.x.fired != o.c.fired
-            || !(same (.obj o.x.final) (.obj o.c.final)) then "fail execute_at_time:differs_from_callback_run"
+        -- twin entry point: execute / execute_at_time must end in the same state with the same counters, call by call
+        if o.x.length != o.c.length || (o.x.zip o.c).any (fun (x, cr) => twinDiffers x cr) then
+          "fail execute_at_time:differs_from_callback_run"
         else
-          let g := match o.g with
-            | some gr => (judgeRun "grl" c gr).fail
-            | none => none
+          let g := if o.g.isEmpty then none else (judgeStream "grl" c o.g).fail
           match g with
           | some f => s!"fail {f}"
           | none =>
             let judged := a.tags.filter (· == "judged") |>.length
+            let st := match o.c with | r :: _ => r.status | [] => "none"
             let tags := a.tags
-              ++ [s!"status_{o.c.status}", s!"rules{c.rules.length}"]
-              ++ (if o.g.isSome then ["grl"] else [])
-              ++ (if o.c.firings.length > 0 then ["fired"] else [])
+              ++ [s!"status_{st}", s!"rules{c.rules.length}"]
+              ++ (if !o.g.isEmpty then ["grl"] else [])
+              ++ (if o.c.any (·.firings.length > 0) then ["fired"] else [])
+              ++ (if c.maxCycles > 1 then [s!"cycles{c.maxCycles}"] else [])
+              ++ (if c.phases.length > 0 then [s!"calls{ncalls}"] else [])
               ++ (if judged > 0 && (a.tags.contains "readback" || (a.tags.filter (fun t => t == "leafT" || t == "leafF")).length ≥ 2)
                   then ["nontrivial"] else [])
             joinSp ("ok" :: tags)
